@@ -7,12 +7,21 @@ from .check_values import dedupe
 
 def observe(tier):
     d = C.fresh_dir(os.path.join(C.BUILD, "convert"))
-    cfg = "MC_Convert_quick.cfg" if tier == "quick" else "MC_Convert_thorough.cfg"
+    cfg = "MC_Convert_quick.cfg"
     g = C.TlcGen("OdmlConvertGen.tla", cfg, "convert", workers=4)
     n, files = par.replay_stream(dedupe(g.chunks(100)), "harness.convert", os.path.join(d, "R"), shard=5000)
+    tlc = [{"cfg": cfg, "cmd": g.describe(), "states": g.stats["distinct"], "transitions": g.n_lines, "wall_s": round(g.wall, 1)}]
+    records = {"R": n}
+    if tier == "thorough":
+        # all documents two mutations away (above) + one in 20 (by content hash and seed) of those three mutations away
+        g3 = C.TlcGen("OdmlConvertGen.tla", "MC_Convert_thorough.cfg", "convert3", workers=8)
+        n3, f3 = par.replay_stream(C.thin(dedupe(g3.chunks(100)), 20), "harness.convert", os.path.join(d, "R3"), shard=5000)
+        files += f3
+        records["R3 (1 in 20)"] = n3
+        tlc.append({"cfg": "MC_Convert_thorough.cfg", "cmd": g3.describe(), "states": g3.stats["distinct"], "transitions": g3.n_lines, "wall_s": round(g3.wall, 1)})
     return {"judge": [("JudgeConvert.tla", "JudgeConvert.cfg", files)],
-            "tlc": [{"cfg": cfg, "cmd": g.describe(), "states": g.stats["distinct"], "transitions": g.n_lines, "wall_s": round(g.wall, 1)}],
-            "records": {"R": n},
+            "tlc": tlc,
+            "records": records,
             "explanation": "every odML 1.0 document reachable by <= MaxMut mutations of a base document (duplicate sibling names, ids valid/absent/malformed, unnamed Properties, "
                            "unsupported elements at document/Section/Property/value level, value attributes on the first/a later/all value elements agreeing and conflicting, "
                            "commas in value texts, 'binary', dependency_value, 0..3 value elements) rendered as XML, JSON and YAML, converted (StringIO, file, write_to_file), "
